@@ -26,6 +26,9 @@ def families():
         ([("seq", [("sub", [L("--opt="), ("fb", [C('__probe c1 p1 "$@"'), C('__probe c2 p2 "$@"')])]), L("end")])], []),
         ([("seq", [L("one"), ("fb", [R("U"), L("--help")])]), ("seq", [L("two"), R("U")])], [("U", "bash", C('__probe c1 p7 "$@"')), ("U", "", C('__probe c2 p2 "$@"'))]),
         ([("seq", [L("a"), ("opt", L("b")), L("c")])], []),
+        ([("seq", [R("A"), L("end")])], [("A", "", ("seq", [L("x"), R("B")])), ("B", "", ("seq", [L("y"), R("Cc")])), ("Cc", "", ("seq", [L("z"), R("D")])),
+                                            ("D", "", ("alt", [L("foo"), L("bar")]))]),
+        ([("fb", [("alt", [L("start"), L("stop")]), w("--level=", ["low", "high"])])], []),
         ([("seq", [("sub", [L("--level="), ("opt", L("no-")), L("strict")]), L("end")])], []),
     ]
     return out
